@@ -1017,16 +1017,15 @@ def make_free_cases(rng, n, tier):
         if len(cases) % 8 == 3:                       # two-scale rewards (extreme magnitudes / near-ties below 1e-8)
             cases.append(make_two_scale_case(rng, "big" if len(cases) % 16 == 3 else "fine"))
             continue
-        if len(cases) % 16 == 14:                     # targeted family "exact tie into an unvisited optimistic region"
-            m = make_tie_instance(rng, kb=20, mode="free")
+        if len(cases) % 16 in (12, 14):               # targeted family "exact tie into an unvisited optimistic region"
+            m = make_tie_instance(rng, kb=20, mode="free", extra_init=True)
+            m["shared_actions"] = m["shared_actions"] or "list"
             cases.append({"m": m, "rep": dict(REPS[rng.randrange(len(REPS))]), "seed": rng.randrange(10 ** 6),
                           "randomize": True, "iterations": 4000, "exact": True})
             continue
         if len(cases) % 16 in (2, 10):                # targeted family "exact tie at a labelled, never updated state"
-            m = make_deeptie_instance(rng, kb=20, mode="free", extra_init=(len(cases) % 16 == 10))
-            rz = len(cases) % 32 < 16 or len(cases) % 16 == 10
-            if rz:
-                m["shared_actions"] = m["shared_actions"] or "list"
+            m = make_deeptie_instance(rng, kb=20, mode="free")
+            rz = len(cases) % 16 == 10
             cases.append({"m": m, "rep": dict(REPS[rng.randrange(len(REPS))]), "seed": rng.randrange(10 ** 6),
                           "randomize": rz, "iterations": 4000, "exact": True})
             continue
@@ -1166,75 +1165,82 @@ def make_flip_instance(rng, *, kb=KB, mode="mc"):
     return m
 
 
-def make_tie_instance(rng, *, kb=KB, mode="mc"):
+def make_tie_instance(rng, *, kb=KB, mode="mc", extra_init=False):
     """Targeted family "exact tie into an unvisited optimistic region", for randomize_action_order: at s0
     action a goes straight to the absorbing g (reward r), action b goes to u (reward 0) whose heuristic is the
     optimistic r / gamma while its true value is lower by `loss`; Q(s0, a) = Q(s0, b) exactly as long as u is not
     visited.  Under the action orders that list a first the run ends with u never touched; the returned policy
-    must then be a - the first maximiser in the order the *planner* fixed for s0, not in that of mdp.actions."""
+    must then be a - the first maximiser in the order the *planner* fixed for s0, not in that of mdp.actions.
+    Every state lists both actions (actions() may be one shared list object); extra_init adds a second initial
+    state s1, so that new states can be met - and their orders shuffled - after s0 has been labelled."""
     g_n, g_d = rng.choice([(1, 1), (1, 2)])
     r = rng.choice([-1, -2])
     loss = rng.choice([2, 3])
     hu = F(r) * g_d / g_n                               # r / gamma
-    perm = list(range(3))
+    N = 4 if extra_init else 3
+    perm = list(range(N))
     rng.shuffle(perm)
-    s0, u, g = perm
-    N, K = 3, 2
-    avail = [[0, 0] for _ in range(N)]
+    s0, u, g = perm[:3]
+    s1 = perm[3] if extra_init else None
+    K = 2
     P = [[[0] * N for _ in range(K)] for _ in range(N)]
     R = [[[0] * N for _ in range(K)] for _ in range(N)]
     a = rng.randrange(2)
-    avail[s0] = [1, 1]
     P[s0][a][g] = 2
     R[s0][a][g] = r
     P[s0][1 - a][u] = 2
-    c = rng.randrange(2)
-    avail[u][c] = 1
-    P[u][c][g] = 2
-    R[u][c][g] = int(hu) - loss
-    avail[g] = [1, 1]
+    for k, pay in ((0, 0), (1, -1)):
+        P[u][k][g] = 2
+        R[u][k][g] = int(hu) - loss + pay
     for k in range(K):
-        P[g][k][rng.choice([s0, u, g])] = 2
+        P[g][k][rng.choice(perm)] = 2
         R[g][k] = [rng.choice([-3, 0, 4]) for _ in range(N)]
     p0 = [0] * N
-    p0[s0] = 2
+    if extra_init:
+        for k, pay in ((0, -1), (1, -2)):
+            P[s1][k][g] = 2
+            R[s1][k][g] = pay
+        p0[s0], p0[s1] = 1, 1
+    else:
+        p0[s0] = 2
     m = {"N": N, "K": K, "PD": 2, "GN": g_n, "GD": g_d, "ID": 2, "abs": [1 if t == g else 0 for t in range(N)],
-         "avail": avail, "P": P, "R": R, "p0": p0}
+         "avail": [[1, 1] for _ in range(N)], "P": P, "R": R, "p0": p0}
     eps = F(1, rng.choice([8, 16]))
     sc = 2 ** kb
     h = [F(0)] * N
     h[s0] = F(rng.choice([0, r]))
     h[u] = hu
     h[g] = F(rng.choice([0, 2]))
-    aord = []
-    for t in range(N):
-        av = [k + 1 for k in range(K) if avail[t][k]]
-        rng.shuffle(av)
-        aord.append(av)
+    if extra_init:
+        h[s1] = F(rng.choice([0, -1]))
+    if rng.random() < 0.5:
+        aord = [rng.sample([1, 2], 2)] * N
+        aord = [list(o) for o in aord]
+    else:
+        aord = [rng.sample([1, 2], 2) for _ in range(N)]
     m.update(KB=kb, EPS=int(eps * sc), L=rng.choice([3, 4]) if mode == "mc" else rng.choice([3, 10 ** 6]),
              h=[int(y * sc) for y in h], hkind="tie", rand=1 if mode == "mc" else 0, aord=aord, zl=0, lst=[1] * N,
-             i0=[1 if q > 0 else 0 for q in p0], oracle=1, mode=mode)
+             i0=[1 if q > 0 else 0 for q in p0], oracle=1, mode=mode, shared_actions=rng.choice(["", "list", "list", "tuple"]))
     return m
 
 
-def make_deeptie_instance(rng, *, kb=KB, mode="mc", rand=0, extra_init=False):
+def make_deeptie_instance(rng, *, kb=KB, mode="mc", rand=0):
     """Targeted family "exact tie at a state that is labelled but never updated".  s0 has a stochastic action x
     with outcomes g (absorbing) and t; under the histories that never sample t, _check_solved reaches t from s0,
     finds its heuristic consistent (residual within the margin without any backup) and labels it.  At t the
     verified greedy action a (to g, reward ra) is exactly tied with b (reward 0, to u) because u's admissible
     heuristic is the optimistic ra / gamma while u is really worth `loss` less; u is never explored when a comes
     first in t's action order.  The returned policy at t must be the single action the labels certify.
-    All states list both actions (so actions() can be one shared list object); extra_init adds a second initial
-    state s1 whose first visit can come after t has been labelled."""
+    All states list both actions (so actions() can be one shared list object)."""
     g_n, g_d = rng.choice([(1, 1), (1, 2)])
     ra = rng.choice([-1, -2])
     loss = rng.choice([2, 3])
     hu = F(ra) * g_d / g_n
-    N = 5 if extra_init else 4
+    N = 4
     perm = list(range(N))
     rng.shuffle(perm)
-    s0, t, u, g = perm[:4]
-    s1 = perm[4] if extra_init else None
+    s0, t, u, g = perm
+    extra_init = False
     K = 2
     P = [[[0] * N for _ in range(K)] for _ in range(N)]
     R = [[[0] * N for _ in range(K)] for _ in range(N)]
@@ -1364,7 +1370,7 @@ def make_mc_batch(rng, n, tier, corner=False, budget=None, cap=None, ctx=None):
     batch = [dict(CORNER_D3)] if corner else []
     if corner:                                        # targeted family, in every first batch
         batch += [make_flip_instance(rng) for _ in range(12 if tier == "quick" else 60)]
-        batch += [make_tie_instance(rng) for _ in range(8 if tier == "quick" else 40)]
+        batch += [make_tie_instance(rng, extra_init=(i_ % 2 == 1)) for i_ in range(8 if tier == "quick" else 40)]
         k_ = 4 if tier == "quick" else 20
         batch += [make_deeptie_instance(rng, rand=0) for _ in range(2 * k_)]
         batch += [make_deeptie_instance(rng, rand=1) for _ in range(k_)]
